@@ -11,7 +11,7 @@
    collinear vertices, component order), symmetry and "== iff same region" are checked by the
    oracle on pools of variants (partial). *)
 From Coq Require Import List.
-From SV Require Import Spec.Spec Lemmas.Tolerance Lemmas.Fuel Lemmas.Safe Lemmas.EqSound.
+From SV Require Import Spec.Spec Lemmas.Tolerance Lemmas.Fuel Lemmas.Safe Lemmas.EqSound Lemmas.EqSoundShape.
 Open Scope Q_scope.
 Open Scope Q_scope.
 
@@ -67,6 +67,16 @@ Theorem C07_sound_region : forall a b, all_lines a = true -> all_lines b = true 
   closed_chain a = true -> closed_chain b = true ->
   jordan_eq a b = Ok true -> exact_pts a b -> forall p, region_simple a p = region_simple b p.
 Proof. exact jordan_eq_sound_region. Qed.
+(* ... and for shapes of EVERY kind (Simple, Connected with holes in any order, Disjoint with
+   components in any order, Empty, Whole): S == T implies region S = region T at every point *)
+Theorem C07_sound_shapes : forall a b,
+  shape_eq a b = Ok true ->
+  (forall j, In j (jordans a) -> all_lines j = true /\ closed_chain j = true) ->
+  (forall j, In j (jordans b) -> all_lines j = true /\ closed_chain j = true) ->
+  (forall ja jb, In ja (jordans a) -> In jb (jordans b) -> exact_pts ja jb) ->
+  forall p, region a p = region b p.
+Proof. exact shape_eq_sound. Qed.
+Print Assumptions C07_sound_shapes.
 (* SYMMETRY under exactness needs two more hypotheses: edges of b longer than 1e-6 and no two
    equal segments in the cleaned b ... *)
 Theorem C07_symmetric_exact : forall a b, all_lines a = true -> all_lines b = true ->
